@@ -366,7 +366,7 @@ def write_accel(path, acc_name, variant, repo=None):
 # --------------------------------------------------------------------------- continuation steps
 
 STEPS = ("commit", "pack", "repack", "pack-loose", "gc", "delref", "delref+gc", "moveref", "moveref+gc",
-         "retag", "repack-excl", "deltag+gc")
+         "retag", "retag+gc", "repack-excl", "deltag+gc")
 
 
 def _moveref_target(h: Hist):
@@ -412,9 +412,11 @@ def apply_step(h: Hist, step, path):
                 r.refs[last] = tgt
             if step.endswith("+gc"):
                 garbage_collect(r, grace_period=None)
-        elif step == "retag":
+        elif step in ("retag", "retag+gc"):
             st.add_object(h.tag2)
             r.refs[b"refs/tags/t"] = h.tag2.id
+            if step.endswith("+gc"):
+                garbage_collect(r, grace_period=None)  # prunes the old tag object, packs the refs again
         elif step == "deltag+gc":
             del r.refs[b"refs/tags/t"]
             garbage_collect(r, grace_period=None)
@@ -721,7 +723,7 @@ STEP_CLASS = {
     None: "fresh",
     "commit": "stale-grow", "pack": "stale-grow",
     "repack": "stale-relayout", "pack-loose": "stale-relayout", "gc": "stale-relayout",
-    "delref": "stale-refs", "moveref": "stale-refs", "retag": "stale-refs",
+    "delref": "stale-refs", "moveref": "stale-refs", "retag": "stale-refs", "retag+gc": "stale-refs-repacked",
     "delref+gc": "stale-shrink", "moveref+gc": "stale-shrink", "deltag+gc": "stale-shrink", "repack-excl": "stale-shrink",
 }
 
@@ -753,9 +755,10 @@ def model_state(h: Hist, step):
         else:
             refs[last] = tgt
         gc = step.endswith("+gc")
-    elif step == "retag":
+    elif step in ("retag", "retag+gc"):
         refs[b"refs/tags/t"] = h.tag2.id
         objs.add(h.tag2.id)
+        gc = step.endswith("+gc")
     elif step == "deltag+gc":
         refs.pop(b"refs/tags/t")
         gc = True
@@ -773,6 +776,9 @@ def model_state(h: Hist, step):
             if v == h.tag.id:
                 keep.add(h.tag.id)
                 m |= h.anc[0]
+            elif v == h.tag2.id:
+                keep.add(h.tag2.id)
+                m |= h.anc[h.n - 1]
             elif v in node:
                 m |= h.anc[node[v]]
         for i in E.bits(m):
@@ -1183,7 +1189,7 @@ def _eval_configs(acc, h, layout, configs, steps, mode, work, refcache, standalo
 
 # --------------------------------------------------------------------------- one history (batch)
 
-QUICK_STEPS = ("commit", "pack", "repack", "pack-loose", "delref", "delref+gc", "retag", "repack-excl", "deltag+gc")
+QUICK_STEPS = ("commit", "pack", "repack", "pack-loose", "delref", "delref+gc", "retag", "retag+gc", "repack-excl", "deltag+gc")
 QUICK_LIVE_STEPS = ("commit", "pack", "repack", "delref+gc", "retag")
 MAIN_LAYOUTS = ("loose", "pack1", "pack2", "mixed")
 EXTRA_LAYOUTS = ("pack2o", "pack1-v1", "pack1-v3")
@@ -1231,7 +1237,9 @@ def plan_for(layout, tier, light=False):
             lv_cfg = [()] + singles_d + [full_d, (("cg", "g"),), (("midx", "g"),), (("prefs", "g"),)]
             plan.append(("live", lv_cfg, [None] + list(QUICK_STEPS)))
     else:
-        cfgs = [(), (("midx", "d"),), (("bitmap", "d"),)] + ([] if q else [(("midx", "g"),), (("cg", "d"),), full_d])
+        cfgs = [(), (("midx", "d"),), (("bitmap", "d"),)] + ([] if q else [(("cg", "d"),), full_d])
+        if not q and layout != "pack1-v3":  # (C git 2.39 cannot read a version-3 pack index at all)
+            cfgs.append((("midx", "g"),))
         plan.append(("fresh", cfgs, [None] + (["commit", "delref+gc", "repack"] if q else ["commit", "pack", "repack", "delref+gc", "repack-excl"])))
         plan.append(("live", [(), (("bitmap", "d"),)], [None]))
     return plan
